@@ -83,6 +83,16 @@ func (x *Exec) doCall(st *State, in ssa.Instruction, c *ssa.CallCommon, mode str
 		}
 	}
 
+	if bi == nil && d == nil && st.fr.parent == nil {
+		// a slice or map loaded from a guarded field and handed to a call may be written through
+		// (sorting in place): that needs the guarding lock held exclusively
+		for _, a := range c.Args {
+			switch types.Unalias(a.Type()).Underlying().(type) {
+			case *types.Slice, *types.Map:
+				x.mapFieldPolicy(st, a, true, in)
+			}
+		}
+	}
 	if bi != nil {
 		hooked := bi.Name() != "close" && bi.Name() != "delete"
 		if hooked {
